@@ -144,6 +144,9 @@ var calleePre = map[string]preReq{
 	"strconv.AppendUint":                    {2, "base36"},
 	"(*math/big.Int).Text":                  {1, "base62"},
 	"(*math/big.Int).Append":                {2, "base62"},
+	// math/big.Float panics with ErrNaN on a NaN operand
+	"(*math/big.Float).SetFloat64": {1, "notnan"},
+	"math/big.NewFloat":            {0, "notnan"},
 	// reflect-based encoders that call Type() on the zero reflect.Value of a nil interface
 	"(*github.com/BurntSushi/toml.Encoder).Encode": {1, "nonnil"},
 }
@@ -188,6 +191,7 @@ func runC13(r *fw.Run, p *fw.Program) {
 	c13Embed(r, p)
 	c13JQType(r, p, scope)
 	c13Idx(r, p, scope)
+	c13JQRec(r, p, c13JQRecRows)
 	c13ExploreIdx(p, scope)
 	if os.Getenv("C13_DUMP") != "" {
 		r.C13Dump(os.Stdout)
@@ -313,6 +317,31 @@ func c13Pre(r *fw.Run, p *fw.Program, scope []*ssa.Function) {
 						}
 					}
 					report("nonnil:"+callee.Name(), x, okNil, "value tested against nil first", name+" is handed an interface value that is not tested against nil: the encoder reflects on it and a nil value (jq null, a decode value that is null) is an uncatchable reflect panic")
+				case "notnan":
+					// proved by a dominating math.IsNaN(a) == false (or a != a false), or a is converted from an integer
+					okNaN := false
+					if cv, ok := a.(*ssa.Convert); ok {
+						if b, ok := cv.X.Type().Underlying().(*types.Basic); ok && b.Info()&types.IsInteger != 0 {
+							okNaN = true
+						}
+					}
+					if _, ok := a.(*ssa.Const); ok {
+						okNaN = true
+					}
+					for _, g := range fw.Guards(x.Block()) {
+						g = g.Normalize()
+						switch cnd := g.Cond.(type) {
+						case *ssa.Call:
+							if cal := cnd.Common().StaticCallee(); cal != nil && cal.String() == "math.IsNaN" && len(cnd.Common().Args) == 1 && cnd.Common().Args[0] == a && !g.True {
+								okNaN = true
+							}
+						case *ssa.BinOp:
+							if cnd.X == a && cnd.Y == a && ((cnd.Op == token.NEQ && !g.True) || (cnd.Op == token.EQL && g.True)) {
+								okNaN = true
+							}
+						}
+					}
+					report("notnan:"+callee.Name(), x, okNaN, "operand proved not NaN", name+" is handed a float that is not proved to be a number: math/big panics with ErrNaN on NaN (jq nan), which nothing recovers")
 				case "nonneg":
 					if c, ok := a.(*ssa.Const); ok && c.Value != nil && c.Int64() >= 0 {
 						return
